@@ -1008,8 +1008,28 @@ def no_cross_call_state(ctx):
            not bad, "; ".join(bad[:3]) or f"{n_mod} modules scanned", mod="pyscf_interface", line=1)
 
 
+def arguments_not_modified(ctx):
+    """MUT-1.  prep_afqmc computes what it writes from the mean-field / coupled-cluster object it is handed; the object
+    stays the user's (prepared again with another threshold, used for the reference energy afterwards).  An in-place
+    operator on an attribute of it, or on a NumPy view of one (np.asarray / reshape / ravel do not copy), changes the
+    amplitudes or integrals every later call sees."""
+    from ..rules.pitfalls import param_mutations
+    for q in ("pyscf_interface.prep_afqmc", "pyscf_interface.write_dqmc", "pyscf_interface.generate_integrals"):
+        try:
+            fi = ctx.p.func(q)
+        except AnalysisError:
+            continue
+        if fi.node is None or fi.is_jit:
+            continue
+        muts = param_mutations(fi.node, numpy_views=True, methods=True)
+        ctx.ob("MUT-1", f"{q.split('.')[-1]}: the objects it is handed are not modified in place", not muts,
+               "; ".join(f"line {ln}: {txt}" for ln, txt, prm in muts[:3]) or "no in-place operation on a parameter or a view of one",
+               fi)
+
+
 def run(ctx):
     no_cross_call_state(ctx)
+    arguments_not_modified(ctx)
     fcidump(ctx)
     prep_dataflow(ctx)
     npz_files(ctx)
